@@ -51,7 +51,7 @@ def run_family(ctx, name: str, cases: list) -> dict:
 
 def run(ctx):
     ctx.rule = (
-        "TLC: NeverWedged, RefusedOnlyWhenBusy, OneLive, GateSound over all histories of <= 3 connections / 14 steps of Client.tla; "
+        "TLC: NeverWedged, RefusedOnlyWhenBusy, OneLive, GateSound over all histories of <= 3 connections / 11 steps (thorough: 14) of Client.tla; "
         "families on the real APIClient: TLC-generated histories (one per distinct state of a 2-connection / 9-step instance, translated to "
         "environment events); a disturbance (disconnect, force, peer close, EOF, reset, resolve/connect error, bad hello, bad password, "
         "timeout, second start) at EVERY stage of a connect with every gap followed by fresh attempts; a stop callback that reconnects / issues a "
@@ -60,7 +60,7 @@ def run(ctx):
         "every connection object, operation outcomes, writes of refused calls; distinct = distinct schedule"
     )
     rng = random.Random(ctx.seed + 19)
-    ctx.tlc("MC_Client", coverage=True, timeout=1200)
+    ctx.tlc("MC_Client", "MC_Client.cfg" if ctx.quick else "MC_Client_deep.cfg", coverage=True, timeout=3000)
     # TLC-generated histories: one per distinct state of the client (MaxConn 2, 9 steps), shortest path first
     r = ctx.tlc("MC_Client", "MC_Client_gen.cfg", workers=1, timeout=1200)
     gen = []
